@@ -55,9 +55,10 @@ import json as _json
 def _proj(ps):
     return [[p.suffix, bool(p.directory)] for p in ps]
 _kw = %(kw)r
+%(pre)s
 _a = find_paths(%(pats)r, **_kw)
 _b = find_paths(%(pats)r, **_kw)
-_c = find_paths(%(pats)r, cache=False, **_kw)
+_c = %(third)s
 print('VERIF-FIND ' + _json.dumps([_proj(_a), _proj(_b), _proj(_c)]))
 '''
 
@@ -104,7 +105,17 @@ def run_case(case):
             kw['exclude'] = [ng_str(g) for g in f['exclude']]
         pats = [pat_str(p) for p in f['include']]
         with open(os.path.join(src, 'build.bfg'), 'w') as o:
-            o.write(SCRIPT % {'kw': kw, 'pats': pats})
+            # in every second case the same filter is first used with
+            # dist=False: the later ordinary calls still distribute
+            # everything they find (and the cache must not remember less)
+            pre = '_z = find_paths(%r, dist=False, **_kw)' % (pats,) \
+                if case.get('predist') else ''
+            # (then without the uncached third call, which would register
+            # everything again by itself)
+            third = '_b' if case.get('predist') else \
+                'find_paths(%r, cache=False, **_kw)' % (pats,)
+            o.write(SCRIPT % {'kw': kw, 'pats': pats, 'pre': pre,
+                              'third': third})
         bld = os.path.join(root, 'build')
         rc, out = bfg_configure(src, bld)
         ev = {'tree': case['tree'] + [entry_of('build.bfg', False)],
@@ -159,6 +170,8 @@ def main(argv):
     if len(cases) < n // 2:
         raise MachineryError('Glob_Gen gave %d cases\n%s' % (len(cases),
                                                               g.tail()))
+    for i, c in enumerate(cases):
+        c['predist'] = i % 2 == 1
     res = pmap(run_case, cases)
     traces = [{'id': i + 1, 'events': [ev]} for i, ev in enumerate(res)]
     rej, st = validate_traces('Glob_Trace', TRACE, traces, chunk=400)
